@@ -9,7 +9,7 @@ func TestWorldSmoke(t *testing.T) {
 	for round := 0; round < 3; round++ {
 		fail := wInBubble(t, func() {
 			w := wBoot(wConfig{Users: 2})
-			a, b := w.connect(), w.connect()
+			a, b := w.addSess(), w.addSess()
 			fmt.Println("login", w.login(a, 0), w.login(b, 1))
 			fr := w.do(a, `{"sub":{"id":"s1","topic":"me"}}`)
 			fmt.Println("sub me", wCtrlCode(fr, "s1"))
@@ -29,7 +29,7 @@ func TestWorldSmoke(t *testing.T) {
 			w.tick(10e9)
 			fmt.Println("after idle", len(w.liveTopics()))
 			w.restart()
-			a = w.connect()
+			a = w.addSess()
 			w.login(a, 0)
 			fr = w.do(a, `{"sub":{"id":"s9","topic":"`+grp+`","get":{"what":"data"}}}`)
 			fmt.Println("after restart frames", len(fr))
